@@ -188,5 +188,20 @@ def prevFields : Option (PVal F) → List (String × PVal F)
   | some (.dict d) => d
   | _ => []
 
+
+/-- `v is None` -/
+def isNone : PVal F → Bool
+  | .none => true
+  | _ => false
+
+/-- `d.get(k)` when that is not `None`: the value of an item with key `k` that is not `None`
+("allow None instead of missing key"); the last one if the key is repeated -/
+def given (fields : List (String × PVal F)) (k : String) : Option (PVal F) :=
+  fields.foldl (fun acc kv => if kv.1 = k && !isNone kv.2 then some kv.2 else acc) Option.none
+
+/-- the items of `prev` whose key is not offered in `fields` (`fields.get(key) is None`) -/
+def notOffered (fields prev : List (String × PVal F)) : List (String × PVal F) :=
+  prev.filter (fun kv => (given fields kv.1).isNone)
+
 end PVal
 end Frappy
